@@ -279,10 +279,11 @@ func (x *Exec) frameSpecOf(fr *Frame) *frameSpec {
 		}
 		if i := strings.Index(m, "("); i > 0 && strings.HasSuffix(m, ")") {
 			name := strings.TrimSpace(m[:i])
-			if srt, ok := x.eng.ghostFields[name]; ok {
+			if g, srt, ok := x.eng.gfieldLookup(ct.PkgPath, name); ok {
+				name = g.Name
 				obj, ot := ctx.evalText(m[i+1 : len(m)-1])
 				// a ghost field *defined* on this concrete type stands for the object itself
-				if g := x.eng.gfields[ct.PkgPath+" "+name]; g != nil && pointee(ot) != nil {
+				if pointee(ot) != nil {
 					isDef := false
 					for _, d := range g.Defs {
 						if types.Identical(d.sig.Params().At(0).Type(), ot) {
